@@ -147,7 +147,8 @@ __CPROVER_ensures(VF_SHA2_HASH_GHOST(ctx))
 #endif
 
 /* ------------------------------------------------------------------ I / U / F -- */
-#if !defined(VF_HASH_STREAM) && defined(VF_BITS)
+#if !defined(VF_HASH_STREAM) && defined(VF_BLK)
+#ifdef VF_BITS
 
 #if VF_BITS == 224
 #define VF_SHA2_IV(i)	vf_sha224_H0[i]
@@ -172,13 +173,15 @@ __CPROVER_ensures(VF_SHA2_W(ctx, 0) == VF_SHA2_IV(0) && VF_SHA2_W(ctx, 1) == VF_
     VF_SHA2_W(ctx, 4) == VF_SHA2_IV(4) && VF_SHA2_W(ctx, 5) == VF_SHA2_IV(5) &&
     VF_SHA2_W(ctx, 6) == VF_SHA2_IV(6) && VF_SHA2_W(ctx, 7) == VF_SHA2_IV(7))
 ;
+#endif /* VF_BITS */
 
+/* U depends on the block size only (the digest size is not read by sha2_update) */
 #define VF_SHA2_T0(ctx)		((size_t)(__CPROVER_old((ctx)->count) & (VF_BLK - 1)))
 
 static inline void
 sha2_update(sha2_ctx_p ctx, const uint8_t *data, size_t data_size)
 __CPROVER_requires(__CPROVER_is_fresh(ctx, sizeof(sha2_ctx_t)))
-__CPROVER_requires(ctx->block_size == VF_BLK && ctx->hash_size == VF_HS)
+__CPROVER_requires(ctx->block_size == VF_BLK)
 #ifdef VF_TAIL
 __CPROVER_requires((ctx->count & (VF_BLK - 1)) == VF_TAIL)
 #endif
@@ -204,6 +207,7 @@ __CPROVER_ensures(VF_FED(VF_SHA2_T0(ctx), data_size, VF_BLK) == 0 ==> VF_SHA2_HA
 __CPROVER_ensures(VF_FED(VF_SHA2_T0(ctx), data_size, VF_BLK) != 0 ==> VF_SHA2_HASH_GHOST(ctx))
 ;
 
+#ifdef VF_BITS
 /* F: FIPS 180-4 5.1.1 / 5.1.2 padding (64-bit / 128-bit big-endian bit length), output
  * truncated to the variant's size (6.3, 6.5), wipe */
 #define VF_SHA2_FFED(ctx)	((VF_SHA2_T0(ctx) > VF_BLK - 1 - VF_SHA2_LENBYTES) ? (size_t)(2 * VF_BLK) : (size_t)VF_BLK)
@@ -239,6 +243,7 @@ __CPROVER_ensures(vf_d_k < VF_HS ==> digest[vf_d_k] == VF_BYTE_BE64(vf_blk_h[vf_
 #endif
 __CPROVER_ensures(vf_c_k < sizeof(sha2_ctx_t) ==> ((const uint8_t *)ctx)[vf_c_k] == 0)
 ;
+#endif /* VF_BITS */
 #endif /* I/U/F */
 
 #if defined(VF_HASH_STREAM) && defined(VF_BITS) /* ------------------------ STREAM -- */
